@@ -899,6 +899,25 @@ def check_translated(prop, tier, seed, replay):
                                       out.replace('\n', ' | ')[:800]], src.split('\n'))
             violations.append([path, False])
             found_input = True
+    if prop == 'C09' and not replay:
+        # _1 … _15 inside the CO_ clauses of an eagerly started coroutine (harness/covalue, the 'arity 15' cases; -std=c++20)
+        try:
+            cx = vlib.build_simple_harness('covalue', std='c++20')
+            out_cv, errs_cv = vlib.run_noinput(cx)
+            l15 = [l for l in out_cv if 'arity 15' in l]
+            bad15 = [l for l in l15 if l.startswith('FAIL')]
+            stats['co_clause_alias_cases'] = len(l15)
+            nprog += 1
+            if bad15 or len(l15) < 3:
+                ndis += 1
+                path = vlib.write_replay(prop, tier, seed, 'coalias',
+                                         ['verdict violation', 'inside a CO_RETURN / CO_YIELD / CO_THROW clause some _k is not the caller\'s argument',
+                                          'reproduce: g++ -std=c++20 -fsanitize=address,undefined -I/repo/include /verif/harness/covalue/h_covalue.cpp && ./a.out'],
+                                         bad15 or ['the arity 15 cases did not run'] + out_cv[-5:] + ([errs_cv[0][1][:1500]] if errs_cv else []))
+                violations.append([path, False])
+                found_input = True
+        except vlib.BuildError as e:
+            notes.append('harness/covalue does not build (reported by C20): %s' % str(e)[-200:])
     # a broken tie with a concrete failing input is reported with that input only
     final = []
     for path, nf in violations:
